@@ -38,6 +38,12 @@ type stepOpts struct {
 	fieldExterns map[string]externSig       // "T.field": a func-typed field of a value struct, an external applied to the struct value
 	pureFuncs    map[string]bool            // calls allowed in the (unevaluated) expressions of dropped composite-literal fields
 	dropped      map[string]map[string]bool // struct -> fields that exist in Go and are dropped
+	// phase 5 (gotrans_tab.go)
+	funcSums        map[string]*funcSum // named func types with a closed set of values
+	ignoreFuncTypes bool                // values of func type are unmodelled (dropped, only passed on)
+	newObjects      map[string]bool     // object structs of which composite literals (fresh objects) are accepted
+	frag            *ast.FuncDecl       // a synthesized declaration (fragment) to translate instead of the one looked up
+	fragFile        string
 }
 
 // valueStructsNow: the value structs of the unit being built (isObject is a free function).
@@ -129,6 +135,11 @@ func (c *fnCtx) stepSlice(v *ast.SliceExpr, wantLo bool) (term string, t *gty, l
 // stepExpr: the expression forms of phase 4.  ok = false: not handled here.
 func (c *fnCtx) stepExpr(e ast.Expr, want *gty) (string, *gty, bool) {
 	u := c.u
+	if u.step.funcSums != nil {
+		if s, t, ok := c.tabExpr(e, want); ok {
+			return s, t, true
+		}
+	}
 	switch v := e.(type) {
 	case *ast.SliceExpr:
 		s, t, _, _ := c.stepSlice(v, false)
@@ -306,6 +317,9 @@ func (c *fnCtx) pureDropped(e ast.Expr) bool {
 
 // stepStmt: the statement forms of phase 4.  false: not handled here.
 func (c *fnCtx) stepStmt(ind int, s ast.Stmt) bool {
+	if c.u.step.funcSums != nil && c.tabStmt(ind, s) {
+		return true
+	}
 	switch v := s.(type) {
 	case *ast.RangeStmt:
 		if v.Key == nil || exprString(v.Key) == "_" || v.Tok != token.DEFINE {
